@@ -426,6 +426,9 @@ type slot struct {
 	Variant   int    `json:"variant"`
 	Bad       bool   `json:"bad"`
 	Placement string `json:"placement"`
+	// Companion adds, to the service carrying the fragment, a benign optional dependency on a
+	// profile-disabled service (a rule must not be skipped because another one was satisfied).
+	Companion bool `json:"companion,omitempty"`
 }
 
 // doc collects the files of a case while slots are added.
@@ -486,6 +489,13 @@ func (d *doc) add(i int, sl slot) {
 			start = M{"image": "img/" + name, "labels": M{"slot": name}}
 		}
 		start = merge(start, clone(v.setup).(M))
+		if sl.Companion && r.scope == scService && sl.Placement != plInclude {
+			_, a := start["depends_on"]
+			_, b := frag["depends_on"]
+			if !a && !b {
+				start["depends_on"] = M{"dz": M{"condition": "service_started", "required": false}}
+			}
+		}
 		switch sl.Placement {
 		case plMain:
 			section(d.main, "services")[name] = merge(start, frag)
@@ -680,6 +690,9 @@ func run(s *core.Shard) {
 					s.Cover("placement", pl)
 					s.Cover("rule-variant", r.id+"/"+v.name)
 					pair(s, id, slot{Rule: r.id, Variant: vi, Placement: pl})
+					if r.scope == scService && pl != plInclude {
+						pair(s, id+"/companion", slot{Rule: r.id, Variant: vi, Placement: pl, Companion: true})
+					}
 				}
 			}
 		}
@@ -709,7 +722,7 @@ func run(s *core.Shard) {
 			if !applicable(r.scope, pl) {
 				pl = plMain
 			}
-			sl := slot{Rule: r.id, Variant: rng.Intn(len(r.variants)), Bad: rng.Intn(4) == 0, Placement: pl}
+			sl := slot{Rule: r.id, Variant: rng.Intn(len(r.variants)), Bad: rng.Intn(4) == 0, Placement: pl, Companion: rng.Intn(3) == 0}
 			if sl.Bad {
 				broken = append(broken, r.id)
 			}
